@@ -312,6 +312,70 @@ Proof.
   rewrite Hr. unfold itell in *. unfold iabs in *. lia.
 Qed.
 
+(* reading back what was just appended *)
+Lemma oread_back o d p : app_mode o -> oseekable o = true ->
+  (let* (_, o2) := oseek (oapp o d) (otell o) 0 p in oread o2 (otell (oapp o d) - otell o) p) = Ok (d, oapp o d).
+Proof.
+  intros Ha Sk. unfold oseek, oapp. cbn [oseekable]. rewrite Sk. cbn [negb Z.eqb].
+  unfold otell; cbn [opos odata]. rewrite Ha.
+  destruct (Z.of_N (nlen (odata o)) <? 0)%Z eqn:E; [lia|]. cbn [bind].
+  unfold oread; cbn [odata opos oseekable].
+  replace (Z.of_N (nlen (odata o ++ d)) - Z.of_N (nlen (odata o)))%Z with (Z.of_nat (length d)) by (unfold nlen; rewrite app_length; lia).
+  destruct (Z.of_nat (length d) <? 0)%Z eqn:E2; [lia|].
+  rewrite N2Z.id.
+  destruct d as [|x d'].
+  - rewrite app_nil_r. destruct (nlen (odata o) <=? nlen (odata o))%N eqn:E3; [|lia].
+    cbn [length Z.of_nat Z.ltb Z.compare Z.to_nat firstn Z.to_N]. rewrite N.add_0_r. reflexivity.
+  - destruct (nlen (odata o ++ x :: d') <=? nlen (odata o))%N eqn:E3; [unfold nlen in E3; rewrite app_length in E3; cbn [length] in E3; lia|].
+    replace (N.to_nat (nlen (odata o))) with (length (odata o)) by (unfold nlen; lia).
+    rewrite skipn_app, skipn_all, Nat.sub_diag. cbn [skipn app].
+    destruct (Z.of_nat (length (x :: d')) <? Z.of_nat (length (x :: d')))%Z eqn:E4; [lia|].
+    rewrite Nat2Z.id, firstn_all. f_equal. f_equal. f_equal. unfold nlen. rewrite app_length. lia.
+Qed.
+
+(* RawCopy, building from {'value': v}: the bytes the inner construct appended are what is reported as data, between the offsets where they
+   were written; the output is exactly what the inner construct wrote *)
+Theorem rawcopy_build_value : forall c value cx p o r d,
+  app_mode o -> oseekable o = true ->
+  build c value cx p o = Ok (r, oapp o d) ->
+  build (CRawCopy c) (VDict [(n_value, value)]) cx p o =
+  Ok (VDict (dict_update [(n_value, value)]
+               [(n_data, VBytes d); (n_value, match r with VNone => value | _ => r end); (n_offset1, VInt (otell o));
+                (n_offset2, VInt (otell (oapp o d))); (n_length, VInt (otell (oapp o d) - otell o))]), oapp o d).
+Proof.
+  intros c value cx p o r d Ha Sk Hb. cbn [build bind].
+  change (lookup n_data [(n_value, value)]) with (@None val).
+  change (lookup n_value [(n_value, value)]) with (Some value).
+  cbv iota beta. rewrite Hb. cbn [bind].
+  pose proof (oread_back o d p Ha Sk) as R.
+  destruct (oseek (oapp o d) (otell o) 0 p) as [[x o2]|]; [|discriminate]. cbn [bind] in R |- *. rewrite R. reflexivity.
+Qed.
+
+(* ... and building from {'data': d} writes d *)
+Theorem rawcopy_build_data : forall c d cx p o,
+  app_mode o ->
+  build (CRawCopy c) (VDict [(n_data, VBytes d)]) cx p o =
+  Ok (VDict (dict_update [(n_data, VBytes d)]
+               [(n_data, VBytes d); (n_offset1, VInt (otell o)); (n_offset2, VInt (otell (oapp o d))); (n_length, VInt (otell (oapp o d) - otell o))]), oapp o d).
+Proof.
+  intros c d cx p o Ha. cbn [build bind].
+  change (lookup n_data [(n_data, VBytes d)]) with (Some (VBytes d)). cbv iota beta. cbn [bind write_val].
+  rewrite owrite_app by exact Ha. reflexivity.
+Qed.
+
+(* hence: whatever building from a value emits, building from the data it reports emits the same bytes at the same place *)
+Theorem rawcopy_value_or_data_same_bytes : forall c value cx p o r d,
+  app_mode o -> oseekable o = true ->
+  build c value cx p o = Ok (r, oapp o d) ->
+  exists rv rd, build (CRawCopy c) (VDict [(n_value, value)]) cx p o = Ok (rv, oapp o d) /\
+                build (CRawCopy c) (VDict [(n_data, VBytes d)]) cx p o = Ok (rd, oapp o d) /\
+                lookup n_data (match rv with VDict kv => kv | _ => [] end) = Some (VBytes d).
+Proof.
+  intros c value cx p o r d Ha Sk Hb.
+  eexists. eexists. split; [apply (rawcopy_build_value _ _ _ _ _ _ _ Ha Sk Hb)|]. split; [apply (rawcopy_build_data _ _ _ _ _ Ha)|].
+  reflexivity.
+Qed.
+
 (* Checksum: parse compares the stored digest with the hash of the covered bytes *)
 Theorem checksum_detects : forall c h data cx p s h1 s1 bs,
   parse c cx p s = Ok (h1, s1) -> eval cx data = Ok (VBytes bs) -> val_eqb h1 (apply_hash h bs) = false ->
